@@ -20,6 +20,68 @@ REPLAYS = os.path.join(HERE, "replays")
 KNOWN = os.path.join(HERE, "known_findings.json")
 
 
+def guarded_replay(fn, payload):
+    """Run a replayer in a forked child under a time limit: a counterexample may be a call that never returns, and
+    a replay must not take the check down with it.  Returns (reproduced, text)."""
+    import select
+    import shutil
+    import signal
+    import tempfile
+    limit = 90 if payload.get("expect_hang") else 900
+    tmp = tempfile.mkdtemp(prefix="hsverif.replay.")
+    r, w_ = os.pipe()
+    sys.stdout.flush()
+    sys.stderr.flush()
+    pid = os.fork()
+    if pid == 0:
+        os.close(r)
+        os.environ["TMPDIR"] = tmp
+        try:
+            out = fn(payload)
+            out = [bool(out[0]), str(out[1])]
+        except BaseException:    # noqa
+            out = [False, "replayer crashed:\n" + traceback.format_exc()]
+        try:
+            data = json.dumps(out).encode()
+            while data:
+                n = os.write(w_, data)
+                data = data[n:]
+        finally:
+            os._exit(0)
+    os.close(w_)
+    buf = b""
+    end = time.time() + limit
+    timed_out = False
+    while True:
+        left = end - time.time()
+        if left <= 0:
+            timed_out = True
+            break
+        rd, _, _ = select.select([r], [], [], min(left, 5))
+        if rd:
+            chunk = os.read(r, 65536)
+            if not chunk:
+                break
+            buf += chunk
+    os.close(r)
+    if timed_out:
+        try:
+            os.kill(pid, signal.SIGKILL)
+        except OSError:
+            pass
+    os.waitpid(pid, 0)
+    shutil.rmtree(tmp, ignore_errors=True)
+    if timed_out:
+        return bool(payload.get("expect_hang")), ("the replay on the real code did not return within %d s and was "
+                                                  "killed%s" % (limit, " (the counterexample is a call that does not "
+                                                                "return)" if payload.get("expect_hang") else ""))
+    try:
+        out = json.loads(buf.decode())
+        return bool(out[0]), out[1]
+    except Exception:   # noqa
+        return False, "replayer died without a result"
+
+
 def load_known():
     try:
         with open(KNOWN) as f:
@@ -136,10 +198,7 @@ class Run:
             payload["detail"] = jsonable(f["detail"])
             reproduced, text = True, "no replayer registered"
             if self.replayer is not None:
-                try:
-                    reproduced, text = self.replayer(payload)
-                except Exception:
-                    reproduced, text = False, "replayer crashed:\n" + traceback.format_exc()
+                reproduced, text = guarded_replay(self.replayer, payload)
             payload["replay_result"] = text
             if reproduced:
                 os.makedirs(REPLAYS, exist_ok=True)
